@@ -39,23 +39,57 @@ def differs(t, Dk, v):
     return [f["n"] for f in t["fields"] if not bc.same_obj(v.get(f["n"], bc.ABSENT), Dk.get(f["n"], bc.ABSENT))]
 
 
-def want(o, v):
+def branch_of(S, key, t, o):
+    """for an appending option whose argument is ONE branch of the list's union: (union type, branch name), else None"""
+    a = o["asgs"][0]
+    if a["m"] != "append":
+        return None
+    _, ft = bc.type_at(S, key, t, a["path"])
+    et = bc.unwrap(S, bc.unwrap(S, ft)["t"])
+    at = o["args"][a["src"] - 1]
+    if et["k"] == "dunion" and at["k"] == "ref" and at["name"] in et["refs"]:
+        return et, at["name"]
+    return None
+
+
+def want(S, key, t, o, v):
     a = o["asgs"][0]
     x = at_path(v, a["path"])
     if a["m"] == "direct":
         return 1
     if a["m"] == "append":
-        return len(x) if isinstance(x, list) else 0
+        if not isinstance(x, list):
+            return 0
+        br = branch_of(S, key, t, o)
+        if br:
+            return len([e for e in x if bc.disc_of(S, br[0], e) == br[1]])
+        return len(x)
     return len(x) if isinstance(x, dict) else 0
 
 
-def needed_opts(Dk, b, v):
+def base_at(S, D, key, t, d, v, path):
+    """python twin of BuilderMachine!BaseAt"""
+    key, st = bc.as_struct(S, key, t)
+    n = path[0]
+    dn = d.get(n, bc.ABSENT) if isinstance(d, dict) else bc.ABSENT
+    vn = v.get(n, bc.ABSENT) if isinstance(v, dict) else bc.ABSENT
+    if len(path) == 1:
+        return dn
+    f = bc.field_of(st, n)
+    ckey, _ = bc.as_struct(S, key + "." + n, f["t"])
+    child = dn if isinstance(dn, dict) else (D[ckey] if isinstance(vn, dict) else None)
+    if not isinstance(child, dict):
+        return bc.ABSENT
+    return base_at(S, D, key + "." + n, f["t"], child, vn, path[1:])
+
+
+def needed_opts(S, t, D, key, b, v):
     prom = [a["path"] for a in b["ctor"]["asgs"]]
     out = []
     for o in b["opts"]:
         if o["asgs"][0]["path"] in prom:
             continue
-        if any(not bc.same_obj(at_path(v, a["path"]), at_path(Dk, a["path"])) for a in o["asgs"]):
+        if any(not bc.same_obj(at_path(v, a["path"]), base_at(S, D, key, t, D[key], v, a["path"])) for a in o["asgs"]):
             out.append(o)
     return out
 
@@ -109,6 +143,8 @@ def diag_class(msg):
     m = re.match(r"^(undefined|cannot use|invalid operation|missing|too many|not enough|syntax error|unexpected|mismatched types|cannot convert)", msg)
     if m:
         return m.group(1).replace(" ", "-")
+    if " undefined (type " in msg:
+        return "undefined-method"
     if "expected" in msg:
         return "syntax-error"
     return "other"
@@ -120,7 +156,7 @@ class Walker:
     def __init__(self, entry, u):
         self.e, self.u, self.S = entry, u, entry["S"]
         self.ir = u["ir"]["go"]
-        self.nodes = []     # (key, value, counts, unknown option names)
+        self.nodes = []     # (key, struct type, value, counts, unknown option names, flavour builder name or None)
         self.gaps = 0
 
     def ir_builder_by_go_name(self, name):
@@ -138,6 +174,12 @@ class Walker:
         counts = collections.Counter()
         counts["#ctor"] = len(tree["ctor_args"])
         unknown = []
+        # which of the object's builders does the chain use (duplicate + initialize veneers give several)?
+        flavour = None
+        bound = self.u["bind"]["go"].get(key)
+        used = self.ir_builder_by_go_name(tree["builder"])
+        if bound and used is not None and used is not bound["ir"] and any(used is alt for alt in bound.get("alts", [])):
+            flavour = used["name"]
         seen = collections.Counter()
         # constructor arguments that are builders
         for a, arg in zip(b["ctor"]["asgs"], tree["ctor_args"]):
@@ -165,7 +207,14 @@ class Walker:
             elif a["m"] == "append":
                 i = seen[o["name"]]
                 seen[o["name"]] += 1
-                if isinstance(x, list) and i < len(x):
+                br = branch_of(self.S, key, t, o)
+                if br and isinstance(x, list):
+                    x = [e for e in x if bc.disc_of(self.S, br[0], e) == br[1]]
+                    if i < len(x):
+                        self.arg(val_arg, br[1], self.S[br[1]], x[i])
+                    else:
+                        self.gaps += 1
+                elif isinstance(x, list) and i < len(x):
                     self.arg(val_arg, fk, bc.unwrap(self.S, ft)["t"], x[i])
                 else:
                     self.gaps += 1
@@ -179,7 +228,7 @@ class Walker:
                     self.arg(val_arg, fk, bc.unwrap(self.S, ft)["t"], x[mk])
                 else:
                     self.gaps += 1
-        self.nodes.append((key, v, counts, unknown))
+        self.nodes.append((key, t, v, counts, unknown, flavour))
 
     def arg(self, tree, key, t, v):
         """tree: an argument of a call; (key, t): the specification type it stands for; v: the value"""
@@ -323,6 +372,11 @@ def run(ctx):
         for v in vals.get(u["id"], []):
             if v["key"] not in u["bind"]["go"]:
                 continue
+            if any(r["k"] == "flavour" and r["obj"] == v["key"] for r in entry["rules"]):
+                # the object has no builder of its own, only flavours chosen by their constructor constants: its values
+                # are converted where they occur (inside the root's values)
+                batch.stats["standalone_values_of_flavoured_types"] += 1
+                continue
             if v.get("pair") and pair_unit.get(u["id"]) != u["pkg"]:
                 continue
             g = u["glue"][bc.norm_name(u["bind"]["go"][v["key"]]["ir"]["name"])]
@@ -445,17 +499,32 @@ def run(ctx):
         w = Walker(entry, u)
         w.node(trees[cid], key, t, vgo)
         gaps += w.gaps
-        for nkey, nv, counts, unknown in w.nodes:
+        for nkey, nt, nv, counts, unknown, flavour in w.nodes:
             b = entry["B"][nkey]
+            Dn, ndi = Dr, di
+            if flavour:
+                fk = "%s@%s" % (nkey, flavour)
+                if fk not in Dr:
+                    skipped["flavour-default-not-obtainable"] += 1
+                    continue
+                # the chain uses another builder of the same object: ITS freshly constructed object is the default
+                Dn = dict(Dr)
+                Dn[nkey] = Dr[fk]
+                dk = (u["pkg"], nkey, flavour)
+                if dk not in defaults_idx:
+                    defaults.append([{"key": k, "obj": sc.py_to_jv(x)} for k, x in sorted(Dn.items())])
+                    defaults_idx[dk] = len(defaults)
+                ndi = defaults_idx[dk]
+                per["exactly-once:flavour-chains"] += 1
             try:
-                rec = {"kind": "node", "ei": ei, "di": di, "key": nkey, "v": sc.py_to_jv(nv),
+                rec = {"kind": "node", "ei": ei, "di": ndi, "key": nkey, "v": sc.py_to_jv(nv),
                        "counts": [{"n": k, "c": c} for k, c in sorted(counts.items())]}
             except sc.NotInUniverse:
                 continue
             nviol = set()
             notonce = []
-            for o in needed_opts(Dr[nkey], b, nv):
-                if counts.get(o["name"], 0) != want(o, nv):
+            for o in needed_opts(S, nt, Dn, nkey, b, nv):
+                if counts.get(o["name"], 0) != want(S, nkey, nt, o, nv):
                     notonce.append(o)
             ctor_bad = counts["#ctor"] != len(b["ctor"]["args"])
             if notonce or ctor_bad:
@@ -463,19 +532,21 @@ def run(ctx):
             tf.write(json.dumps(rec, separators=(",", ":")) + "\n")
             records.append(("node", cid, nviol))
             per["exactly-once:chains"] += 1
-            per["exactly-once:needed-options"] += len(needed_opts(Dr[nkey], b, nv))
+            per["exactly-once:needed-options"] += len(needed_opts(S, nt, Dn, nkey, b, nv))
             if len(b["ctor"]["args"]):
                 per["exactly-once:constructor-arguments"] += 1
-            for o in needed_opts(Dr[nkey], b, nv):
+            for o in needed_opts(S, nt, Dn, nkey, b, nv):
                 per["exactly-once:%s" % o["asgs"][0]["m"]] += 1
+                if branch_of(S, nkey, nt, o):
+                    per["exactly-once:branch-append"] += 1
                 if len(o["asgs"][0]["path"]) > 1:
                     per["exactly-once:nested-path"] += 1
             if nkey != key:
                 per["exactly-once:nested-chains"] += 1
             for o in notonce:
                 a = o["asgs"][0]
-                _, ft = bc.type_at(S, nkey, S[nkey] if nkey in S else _inline_type(S, nkey), a["path"])
-                c, wnt = counts.get(o["name"], 0), want(o, nv)
+                _, ft = bc.type_at(S, nkey, nt, a["path"])
+                c, wnt = counts.get(o["name"], 0), want(S, nkey, nt, o, nv)
                 rel = "missing" if c < wnt else "repeated"
                 cls = "%s:%s@%s/%s:%s" % (rel, a["m"], "field" if len(a["path"]) == 1 else "nested-path", arg_kind(S, ft),
                                           value_feature(at_path(nv, a["path"])))
@@ -515,7 +586,7 @@ def run(ctx):
     if not replay:
         need = ["compiles", "rebuilds", "rebuilds:fields-differing-from-default", "exactly-once:chains", "exactly-once:needed-options",
                 "exactly-once:nested-chains", "exactly-once:constructor-arguments", "exactly-once:direct", "exactly-once:append",
-                "exactly-once:index", "exactly-once:nested-path"]
+                "exactly-once:index", "exactly-once:nested-path", "exactly-once:flavour-chains", "exactly-once:branch-append"]
         vac = [k for k in need if per[k] == 0]
         if vac:
             raise core.Inconclusive("vacuous clauses (never exercised): %s" % vac)
